@@ -56,6 +56,10 @@ const maxMemoryCacheSize = 10 * 1000 * 1000
 
 var ErrChunkSignatureMismatch = errors.New("chunk signature mismatch")
 
+// ErrDecodedLengthMismatch is returned when an aws-chunked stream ends after a
+// number of payload bytes other than the declared x-amz-decoded-content-length.
+var ErrDecodedLengthMismatch = errors.New("decoded content length mismatch")
+
 // ErrTrailerChecksumMismatch is returned when the checksum declared in the
 // trailer of an aws-chunked upload does not match the received payload.
 // Its text is the S3 error code reported to the client.
@@ -798,13 +802,14 @@ func checkAuthentication(validCredentials []Credentials, expectedRegion string, 
 		} else {
 			r.Header.Del("Content-Encoding")
 		}
-		r.Header.Set("Content-Length", r.Header.Get("x-amz-decoded-content-length"))
+		decodedContentLength := r.Header.Get("x-amz-decoded-content-length")
+		r.Header.Set("Content-Length", decodedContentLength)
 		r.Header.Del("x-amz-decoded-content-length")
 		trailingHeader := contentSHA256 == contentSHA256StreamingUnsignedPayloadTrailing || contentSHA256 == contentSHA256StreamingPayloadTrailing || contentSHA256 == contentSHA256StreamingECDSAPayloadTrailing
 		hasTrailingHeaderWithSignature := contentSHA256 == contentSHA256StreamingPayloadTrailing || contentSHA256 == contentSHA256StreamingECDSAPayloadTrailing
 		skipChunkValidation := contentSHA256 == contentSHA256StreamingUnsignedPayloadTrailing || contentSHA256 == contentSHA256StreamingUnsignedPayload
 		trailerChecksumName := strings.ToLower(strings.TrimSpace(r.Header.Get(trailerHeader)))
-		r.Body = newAwsChunkReadCloser(r.Context(), r.Body, parameters.timestamp, scope.value, parameters.signature, verifier, trailingHeader, hasTrailingHeaderWithSignature, skipChunkValidation, trailerChecksumName)
+		r.Body = newAwsChunkReadCloser(r.Context(), r.Body, parameters.timestamp, scope.value, parameters.signature, verifier, trailingHeader, hasTrailingHeaderWithSignature, skipChunkValidation, trailerChecksumName).expectDecodedLength(decodedContentLength)
 	}
 
 	return &accessKeyId, isSignatureValid
@@ -812,6 +817,8 @@ func checkAuthentication(validCredentials []Credentials, expectedRegion string, 
 
 type awsChunkReadCloser struct {
 	finished                       bool
+	decodedLength                  int64 // declared x-amz-decoded-content-length, -1 if unknown
+	deliveredBytes                 int64
 	ctx                            context.Context
 	innerCloser                    io.Closer
 	innerBuf                       *bufio.Reader
@@ -835,6 +842,7 @@ func newAwsChunkReadCloser(ctx context.Context, inner io.ReadCloser, timestamp s
 		trailerHasher, _ = checksumutils.NewChecksumTrailerHash(trailerChecksumName)
 	}
 	return &awsChunkReadCloser{
+		decodedLength:                  -1,
 		ctx:                            ctx,
 		innerCloser:                    inner,
 		innerBuf:                       bufio.NewReader(inner),
@@ -851,6 +859,15 @@ func newAwsChunkReadCloser(ctx context.Context, inner io.ReadCloser, timestamp s
 		trailerChecksumName:            trailerChecksumName,
 		trailerHasher:                  trailerHasher,
 	}
+}
+
+// expectDecodedLength records the declared x-amz-decoded-content-length so
+// that the end of the stream can be checked against it.
+func (r *awsChunkReadCloser) expectDecodedLength(headerValue string) *awsChunkReadCloser {
+	if n, err := strconv.ParseInt(strings.TrimSpace(headerValue), 10, 64); err == nil && n >= 0 {
+		r.decodedLength = n
+	}
+	return r
 }
 
 func (r *awsChunkReadCloser) validateSignature() error {
@@ -989,6 +1006,11 @@ func (r *awsChunkReadCloser) Read(p []byte) (n int, err error) {
 					return 0, unexpectedEOF(err)
 				}
 			}
+			if r.decodedLength >= 0 && r.deliveredBytes != r.decodedLength {
+				// The framing was consistent but does not carry the declared
+				// payload (e.g. an altered chunk size with unverifiable signatures).
+				return 0, ErrDecodedLengthMismatch
+			}
 			r.finished = true
 			return 0, io.EOF // End of the chunked transfer
 		}
@@ -1006,6 +1028,7 @@ func (r *awsChunkReadCloser) Read(p []byte) (n int, err error) {
 		r.trailerHasher.Write(p[:n])
 	}
 	r.chunkBytesRemaining -= int64(n)
+	r.deliveredBytes += int64(n)
 	if r.chunkBytesRemaining == 0 {
 		_, err := r.innerBuf.Discard(2) // Discard the trailing \r\n
 		if err != nil {
@@ -1053,10 +1076,11 @@ func decodeUnauthenticatedAwsChunkedBody(r *http.Request) {
 	} else {
 		r.Header.Del("Content-Encoding")
 	}
-	r.Header.Set("Content-Length", r.Header.Get("x-amz-decoded-content-length"))
+	decodedContentLength := r.Header.Get("x-amz-decoded-content-length")
+	r.Header.Set("Content-Length", decodedContentLength)
 	r.Header.Del("x-amz-decoded-content-length")
 	trailerChecksumName := strings.ToLower(strings.TrimSpace(r.Header.Get(trailerHeader)))
-	r.Body = newAwsChunkReadCloser(r.Context(), r.Body, "", "", "", signatureVerifier{algorithm: signatureAlgorithmV4}, trailingHeader, false, true, trailerChecksumName)
+	r.Body = newAwsChunkReadCloser(r.Context(), r.Body, "", "", "", signatureVerifier{algorithm: signatureAlgorithmV4}, trailingHeader, false, true, trailerChecksumName).expectDecodedLength(decodedContentLength)
 }
 
 // MakeAwsChunkedDecodingMiddleware decodes aws-chunked uploads when the
